@@ -81,7 +81,7 @@ func (t *Trie) mergeExtension(prefix []byte, sub Node) (Node, error) {
 	switch sn := sub.(type) {
 	case *ExtensionNode:
 		t.removeRef(sn.Hash(), sn.bytes)
-		sn.key = append(prefix, sn.key...)
+		sn.key = slices.Concat(prefix, sn.key) // prefix can share memory with other keys
 		sn.invalidateCache()
 		t.addRef(sn.Hash(), sn.bytes)
 		return sn, nil
